@@ -46,3 +46,7 @@ def replay(path):
     verd.findings = []
     lsem.decide(PROP, [p], "replay", verd, {"states": 0, "transitions": 0}, {}, [])
     return verd.finish()
+
+
+def selftest():
+    return lsem.selftest(PROP, lsem.number([("binop", p, root, None) for p, root in gen_meta.gen_binops(random.Random(5), 150)[0]]))
